@@ -84,6 +84,35 @@ def run(ctx):
         if fe and dominated_by_edges(csp, pushes[0], fe):
             okz = True
     ctx.ob('R17.7', 'permit|no empty allocation', okz, 'an allocation of zero workers is never permitted (the loop stops at to_spawn == 0)', csp.loc(pushes[0]))
+    # ---- R17.8 / R17.9
+    ctx.rule('R17.8', 'workers counted against max_worker_count = sum of the SUBMITTED sizes (target_worker_count) of all active allocations, independent of how many workers are currently connected')
+    ctx.rule('R17.9', 'demand is computed from the exact resources of a worker that already connected from the queue when they are known; the CLI hint (partial, padded with unlimited amounts) is used only otherwise')
+    awc = [prog.bodies[p_] for p_ in prog.with_closures(AQ + '::active_worker_count')]
+    from hqrules.core import rv_places
+    fields_read = set()
+    status_dep = False
+    for b_ in awc:
+        for bi_ in b_.reachable():
+            for s_ in b_.stmts(bi_):
+                if s_['k'] == 'a':
+                    for pl_ in rv_places(s_['rv']):
+                        for n_, a_, v_ in place_fields(pl_):
+                            if a_ == AA + 'state::Allocation' or a_ == AA + 'state::AllocationState':
+                                fields_read.add(n_)
+                    if s_['rv'][0] == 'discr' and s_['rv'][2] == AA + 'state::AllocationState':
+                        status_dep = True
+    ctx.ob('R17.8', 'active_worker_count|submitted size', 'target_worker_count' in fields_read and not status_dep and 'connected_workers' not in fields_read,
+           f'active_worker_count sums target_worker_count and does not look at the allocation status / connected set (fields read: {sorted(fields_read)}, status inspected: {status_dep})', awc[0].loc())
+    ctx.ob('R17.8', 'active_worker_count|active allocations only', bool(awc[0].call_blocks(AQ + '::active_allocations')), 'only queued and running allocations are counted', awc[0].loc())
+    cq = prog.body(PROC + 'create_queue_worker_query')
+    gw = cq.call_blocks(AQ + '::get_worker_resources')
+    cli = cq.call_blocks(lambda c: c.endswith('QueueInfo::cli_resource_descriptor'))
+    ctx.require(gw and cli, 'R17.9: get_worker_resources / cli_resource_descriptor in create_queue_worker_query')
+    OPT_ = 'core::option::Option'
+    keys_ = [k for k, d in scrutinees(cq, OPT_).items() if d['root'] == cq.term[gw[0]]['d'][0]]
+    vs_ = variants_at(cq, OPT_, cli[0], keys_[0]) if keys_ else None
+    ctx.ob('R17.9', 'create_queue_worker_query|known worker resources first', vs_ is not None and set(vs_) == {'None'},
+           f'the CLI resource hint is consulted only when no worker resources are known for the queue (observed: hint read under get_worker_resources() = {sorted(vs_) if vs_ else vs_})', cq.loc(cli[0]))
     # ---- R17.1
     n = 0
     for o, b, bi in call_sites(prog, SUBMIT):
